@@ -285,3 +285,54 @@ func HarnessC11Routing() {
 		verifCheckf(n == 0, "untrusted-input-reported-outside-script", site.path)
 	}
 }
+
+func verifSegText(s verifSeg) string {
+	switch s.kind {
+	case segFilter:
+		return ".*"
+	case segIndex:
+		return "[0]"
+	case segLit:
+		return "['" + s.name + "']"
+	}
+	return "." + s.name
+}
+
+// HarnessC11Split: a documented untrusted path cut in two at every position:
+// the first part is a complete operand, the rest is applied to something that
+// is not a context (the result of a sanitising or an ordinary call, a
+// parenthesised literal). The checker must not stitch the two parts together:
+// reports = what the first part alone denotes.
+func HarnessC11Split() {
+	_, chain := verifUntrustedSpelling("u")
+	k := verifChoose("cut", len(chain))
+	prefix, tail := "github", ""
+	for j, s := range chain {
+		if j < k {
+			prefix += verifSegText(s)
+		} else {
+			tail += verifSegText(s)
+		}
+	}
+	var src string
+	switch verifChoose("shape", 5) {
+	case 0:
+		src = "format('{0}{1}', " + prefix + ", contains('a', 'b')" + tail + ")"
+	case 1:
+		src = "format('{0}{1}', " + prefix + ", toJSON('a')" + tail + ")"
+	case 2:
+		src = prefix + " == startsWith('a', 'b')" + tail
+	case 3:
+		src = "format('{0}{1}', " + prefix + ", ('a')" + tail + ")"
+	default:
+		src = "format('{0}{1}{2}', " + prefix + ", endsWith('a', contains('b', 'c')), fromJSON('1')" + tail + ")"
+	}
+	n, _, ok := verifUntrustedReports(src, true)
+	verifCheckf(ok, "generated-expression-does-not-parse", src)
+	want := 0
+	if len(verifExpectedPaths(chain[:k])) > 0 {
+		want = 1
+	}
+	verifReach("compared")
+	verifCheckf(n == want, "number-of-untrusted-reports-differs", src)
+}
